@@ -6,4 +6,4 @@ clean:
 	-cd coq && [ -f Makefile ] && make clean
 	rm -f coq/Makefile coq/Makefile.conf coq/.Makefile.d ocaml/model.ml ocaml/model.mli ocaml/driver ocaml/*.cm* ocaml/*.o
 coqchk:
-	cd coq && timeout 3000 coqchk -silent -o -Q . ASV $$(find . -name Theorems.vo | sed 's|^\./||; s|\.vo$$||; s|/|.|g; s|^|ASV.|')
+	cd coq && timeout 3000 coqchk -silent -o -Q . ASV $$(find . -name Theorems.vo -o -path './Tie/*.vo' | sed 's|^\./||; s|\.vo$$||; s|/|.|g; s|^|ASV.|')
